@@ -18,7 +18,7 @@
 (***************************************************************************)
 EXTENDS Integers, Sequences, FiniteSets, TLC, Json, IOUtils, SequencesExt
 
-BP  == {"free", "lower", "upper", "wide", "narrow", "fixed"}
+BP  == {"free", "lower", "upper", "wide", "narrow", "fixed", "ugly"}
 X0  == {"inside", "onlower", "onupper", "below", "above"}
 OBJ == {"quad", "nonsmooth", "noisy", "rosen"}
 LIN == {"none", "ub", "two", "eq"}
@@ -40,6 +40,14 @@ LivePats(n, S) == {p \in Pats(n, S) : \E i \in 1..n : p[i] # "fixed"}
 
 Const(n, v) == [i \in 1..n |-> v]
 
+(* ---- problems on which second-order-correction steps are frequent ------ *)
+SocRich(opts, cbs) ==
+  {D(n, bp, x0, sc, obj, NoFault, "none", nl, "Bounds", opt, cb) :
+     n \in {2, 3}, bp \in UNION {{Const(m, "free"), Const(m, "wide"), Const(m, "upper"),
+                               [i \in 1..m |-> IF i = 1 THEN "lower" ELSE "wide"]} : m \in {2, 3}},
+     x0 \in {"far", "inside", "onupper"}, sc \in BOOLEAN, obj \in {"sum", "cubic"},
+     nl \in {"sin_eq", "circle_eq", "circle_ge"}, opt \in opts, cb \in cbs}
+
 (* ---- C01: bounds; every bound pattern x start position x scale x kind -- *)
 Universe_C01 ==
   {D(n, bp, x0, sc, obj, NoFault, lin, nl, "Bounds", "default", cb) :
@@ -54,6 +62,15 @@ Universe_C01 ==
      flt \in {NoFault, <<"nan", "region", 0>>, <<"pinf", "region", 0>>},
      nl \in {"nlc_two", "vector", "nlc_eq"}}
 
+  \cup  \* more interpolation points than 2n+1, starts pressed against different faces
+  {D(n, bp, x0, sc, "quad", NoFault, "none", nl, "Bounds", opt, NoCb) :
+     n \in {2, 3}, bp \in UNION {{Const(m, "wide"), Const(m, "ugly"), Const(m, "upper"),
+                               [i \in 1..m |-> IF i = 1 THEN "upper" ELSE "wide"]} : m \in {2, 3}},
+     x0 \in X0 \cup {"mixed", "mixed2"}, sc \in BOOLEAN, nl \in {"none", "nlc_ub"},
+     opt \in {"npt_max", "npt_2np2", "default"}}
+
+  \cup SocRich({"default"}, {NoCb})
+
 WellFormed(d) == Len(d.bp) = d.n
 
 (* ---- C02: the property's own cross product ----------------------------- *)
@@ -67,7 +84,7 @@ Universe_C02 ==
      n \in {2, 3}, bp \in UNION {FixSets(m) : m \in {2, 3}}, sc \in BOOLEAN,
      obj \in {"quad"}, flt \in {NoFault},
      lin \in {"none", "ub", "two", "eq"},
-     nl \in {"none", "nlc_ub", "nlc_two", "nlc_eq", "dict_ineq", "dict_eq"},
+     nl \in {"none", "nlc_ub", "nlc_two", "nlc_eq", "dict_ineq", "dict_eq", "two_dicts"},
      bf \in {"Bounds", "array"}, opt \in {"default", "fev_nptp2", "iter2", "target"}}
   \cup
   {D(2, <<"wide", "wide">>, "inside", sc, "quad", flt, lin, nl, "Bounds", opt, cb) :
@@ -88,14 +105,19 @@ Universe_C05 ==
      lin \in {"none", "ub"}, nl \in {"none", "nlc_ub", "dict_eq"},
      opt \in {"fev1", "fev_nptm1", "fev_npt", "fev_nptp1", "fev_nptp2", "fev_3npt",
               "iter1", "iter2", "iter5", "npt_min", "npt_max", "hist1", "hist2", "default"}}
+  \cup  \* runs that end before the sampling: the single evaluation of the result assembly
+  {D(n, bp, "inside", sc, obj, NoFault, lin, nl, "Bounds", opt, cb) :
+     n \in {1, 2}, bp \in UNION {{Const(m, "fixed"), [i \in 1..m |-> IF i = 1 THEN "bad" ELSE "wide"]} : m \in {1, 2}},
+     sc \in BOOLEAN, obj \in {"quad", "none"}, lin \in {"none", "ub"}, nl \in {"none", "nlc_ub"},
+     opt \in {"default", "fev1", "hist1"}, cb \in {NoCb, <<"kw", 0>>}}
 
 (* ---- C06: call discipline ---------------------------------------------- *)
 Universe_C06 ==
   {D(n, bp, "inside", sc, obj, NoFault, lin, nl, "Bounds", opt, cb) :
      n \in {2, 3}, bp \in UNION {FixSets(m) : m \in {2, 3}}, sc \in BOOLEAN,
      obj \in {"quad", "none"}, lin \in {"none", "two"},
-     nl \in {"nlc_ub", "nlc_two", "nlc_eq", "dict_ineq", "dict_eq", "vector", "two_objs"},
-     opt \in {"default", "fev_3npt", "target"}, cb \in {NoCb, <<"pos", 0>>}}
+     nl \in {"nlc_ub", "nlc_two", "nlc_eq", "dict_ineq", "dict_eq", "vector", "two_objs", "two_dicts"},
+     opt \in {"default", "fev_3npt", "target", "disp"}, cb \in {NoCb, <<"pos", 0>>}}
 
 (* ---- C07 / C09: every way of ending, in every phase -------------------- *)
 Stops(K) == {<<"stop", k>> : k \in K}
@@ -103,31 +125,47 @@ Universe_C07 ==
   {D(n, bp, "inside", sc, obj, NoFault, lin, nl, "Bounds", opt, cb) :
      n \in {1, 2}, bp \in UNION {{Const(m, "free"), Const(m, "wide"), Const(m, "fixed")} : m \in {1, 2}},
      sc \in {FALSE}, obj \in {"quad", "none"}, lin \in {"none", "ub"}, nl \in {"none", "nlc_ub", "nlc_eq"},
-     opt \in {"default", "fev1", "fev_nptm1", "fev_npt", "fev_nptp1", "iter1", "iter2", "target"},
+     opt \in {"default", "fev1", "fev_nptm1", "fev_npt", "fev_nptp1", "iter1", "iter2", "target",
+              "tol0", "tol0_target", "tol0_target2"},
      cb \in {NoCb} \cup Stops({1, 2, 3, 6, 9})}
   \cup
   {D(2, <<"bad", "wide">>, "inside", FALSE, obj, NoFault, lin, nl, "Bounds", opt, cb) :
      obj \in {"quad", "none"}, lin \in {"none", "ub"}, nl \in {"none", "nlc_ub"},
      opt \in {"default", "fev1", "target"}, cb \in {NoCb, <<"stop", 1>>, <<"kw", 0>>}}
+  \cup  \* the target is reached by a feasible point after infeasible points with lower objective
+  {D(n, Const(n, "wide"), x0, sc, "quad", NoFault, lin, nl, "Bounds", opt, NoCb) :
+     n \in {1, 2}, x0 \in {"onupper", "above", "mixed"}, sc \in BOOLEAN, lin \in {"ub", "two"},
+     nl \in {"none", "nlc_ub"}, opt \in {"tol0_target", "tol0_target2", "target", "target2"}}
 
 Universe_C09 ==
   {D(n, Const(n, bpk), "inside", sc, obj, NoFault, lin, nl, "Bounds", opt, cb) :
      n \in {1, 2, 3}, bpk \in {"free", "wide"}, sc \in BOOLEAN, obj \in {"quad", "rosen", "none"},
      lin \in {"none", "ub"}, nl \in {"none", "nlc_ub", "nlc_eq", "dict_ineq"},
-     opt \in {"target", "target2", "target3", "default"},
+     opt \in {"target", "target2", "target3", "default", "tol0", "tol0_target", "tol0_target2"},
      cb \in {NoCb} \cup Stops({1, 2, 4, 5, 7, 8, 11, 14, 19, 25})}
+  \cup  \* the trigger placed at a given site, read off a reference run; and exactly at the budget
+  {D(n, Const(n, bpk), "inside", sc, obj, NoFault, lin, nl, "Bounds", opt, cb) :
+     n \in {2, 3}, bpk \in {"free", "wide"}, sc \in BOOLEAN, obj \in {"quad", "rosen", "nonsmooth"},
+     lin \in {"none", "ub"}, nl \in {"none", "nlc_ub", "nlc_eq", "nlc_two"},
+     opt \in {"default", "target_soc", "target_geo", "target_tr", "budget_target", "budget_target2",
+              "fev_eq_stop"},
+     cb \in {NoCb} \cup {<<k, i>> : k \in {"stop_soc", "stop_geo", "stop_tr"}, i \in {0, 1, 2}}
+            \cup {<<"stop_initlast", 0>>, <<"stop", 6>>, <<"stop", 9>>}}
+  \cup SocRich({"default", "target_soc", "target_geo"},
+              {NoCb} \cup {<<k, i>> : k \in {"stop_soc", "stop_geo", "stop_tr"}, i \in {0, 1, 2, 3}})
 
 (* ---- C08: fault sequences ---------------------------------------------- *)
 Faults ==
   {<<k, w, i>> : k \in {"nan", "pinf", "ninf", "huge"}, w \in {"obj", "con"}, i \in {1, 2, 3, 5, 8, 13}}
   \cup {<<k, "region", 0>> : k \in {"nan", "pinf", "ninf", "huge"}}
   \cup {<<k, "all", 0>> : k \in {"nan", "pinf", "const", "zero", "collinear"}}
+  \cup {<<"nan", "split", 0>>, <<"nan", "split2", 0>>}
 
 Universe_C08 ==
   {D(n, Const(n, bpk), x0, sc, obj, flt, lin, nl, "Bounds", opt, cb) :
      n \in {1, 2}, bpk \in {"free", "wide"}, x0 \in {"inside"}, sc \in BOOLEAN, obj \in {"quad", "none"},
      flt \in Faults, lin \in {"none", "two"}, nl \in {"none", "nlc_two", "dict_eq", "vector"},
-     opt \in {"default"}, cb \in {NoCb, <<"stop", 1>>, <<"kw", 0>>}}
+     opt \in {"default", "target_huge"}, cb \in {NoCb, <<"stop", 1>>, <<"kw", 0>>}}
   \cup
   {D(n, bp, "inside", sc, obj, flt, lin, nl, "Bounds", "default", cb) :
      n \in {1, 2}, bp \in UNION {{Const(m, "fixed"), [i \in 1..m |-> IF i = 1 THEN "bad" ELSE "wide"],
@@ -152,6 +190,7 @@ Universe_Runs ==
      obj \in {"quad", "rosen", "nonsmooth"}, flt \in {NoFault, <<"nan", "obj", 1>>, <<"nan", "region", 0>>},
      lin \in {"none", "ub", "eq"}, nl \in {"none", "nlc_ub", "nlc_eq", "vector"},
      opt \in {"default", "filter1", "filter2", "npt_min", "npt_max"}}
+  \cup SocRich({"default", "filter2", "npt_max"}, {NoCb})
 
 Universe(id) ==
   CASE id = "C01" -> Universe_C01
